@@ -258,6 +258,38 @@ class Session:
             raise Inconclusive("signal had no effect")
         time.sleep(0.1)
 
+    def stop_cont_one_fg(self):
+        """one member of the running foreground pipeline is stopped and continued from outside while the others run,
+        then the others finish: the shell has to go on waiting for the continued member (the job keeps the terminal)"""
+        gid = self.fg
+        j = self.jobs[gid]
+        victim = self.rng.choice([p for p, _ in self.live_members(gid)])
+        self.note(("stop-cont-one", "fg"))
+        try:
+            os.kill(victim, signal.SIGSTOP)
+            if not self.wait_until(lambda: (proc_stat(victim) or {"state": "X"})["state"] in ("T", "Z", "X"), 2.0):
+                raise Inconclusive("signal had no effect")
+            time.sleep(0.15)
+            if self.live_members(gid) and any(st["state"] != "T" for _, st in self.live_members(gid)) and self.s.tpgid() != gid:
+                raise Violation("C07:shell-took-the-terminal-back-while-foreground-members-run", {"trace": self.trace[-5:]})
+            os.kill(victim, signal.SIGCONT)
+        except ProcessLookupError:
+            raise Inconclusive("the member ended by itself meanwhile")
+        if not self.wait_until(lambda: (proc_stat(victim) or {"state": "X"})["state"] != "T", 2.0):
+            raise Inconclusive("signal had no effect")
+        time.sleep(0.15)
+        # every other member finishes now
+        for t, p in zip(j["tags"], j["pids"]):
+            if p != victim:
+                open(os.path.join(self.sb.vpdir, "stop." + t), "w").close()
+        others_gone = lambda: all(p == victim for p, _ in self.live_members(gid))
+        if not self.wait_until(others_gone, 4.0):
+            raise Inconclusive("members did not finish")
+        time.sleep(0.4)
+        if proc_stat(victim) and (proc_stat(victim) or {}).get("state") not in ("Z", "X") and self.s.tpgid() != gid:
+            raise Violation("C07:shell-took-the-terminal-back-while-foreground-members-run:after-stop-and-continue-of-that-member",
+                            {"trace": self.trace[-5:], "tpgid": self.s.tpgid(), "gid": gid})
+
     def finish_job(self, gid):
         self.note(("finish", "fg" if gid == self.fg else "bg"))
         for t in self.jobs[gid]["tags"]:
@@ -341,6 +373,8 @@ class Session:
                 if not self.live_members(self.fg):
                     self.read_prompt("foreground-job-ended")
                     self.fg = None
+                elif len(self.live_members(self.fg)) > 1 and self.rng.random() < 0.15:
+                    self.stop_cont_one_fg()
                 elif r < 0.4:
                     self.ctrl_z()
                 elif r < 0.6:
